@@ -286,3 +286,139 @@ pub fn case_of_input(v: &Val) -> Option<StreamCase> {
         class: "replay".into(),
     })
 }
+
+// ---------------------------------------------------------------------------------------------
+// Polls made from inside Waker::wake (an executor that polls the woken task inline, or another
+// thread that reacts before the producer's call has returned): the consumer's polls then fall
+// BETWEEN the steps of one producer call (abort = publish the error + wake, then drop the chunk
+// writer; drop = flush the tail + wake). Harness-level check of C20 / C12 / C11 on the merged,
+// real-time-ordered sequence of poll results.
+// ---------------------------------------------------------------------------------------------
+type SBody = Pin<Box<http_serve::Body<Bytes, BoxError>>>;
+#[derive(Clone, Debug, PartialEq)]
+enum PollEv {
+    Data(usize),
+    Err,
+    End,
+    Pending,
+}
+struct InlineState {
+    body: Mutex<Option<SBody>>,
+    /// (result, is_end_stream() right after the poll, made from inside wake())
+    events: Mutex<Vec<(PollEv, bool, bool)>>,
+}
+struct InlineWaker(Arc<InlineState>);
+impl std::task::Wake for InlineWaker {
+    fn wake(self: Arc<Self>) {
+        poll_shared(&self.0, None, true);
+    }
+}
+fn poll_shared(st: &Arc<InlineState>, waker: Option<Waker>, inline: bool) {
+    // try_lock: a wake() that arrives while a poll is in progress is simply not followed by an inline poll
+    let Ok(mut g) = st.body.try_lock() else { return };
+    let Some(body) = g.as_mut() else { return };
+    let w = waker.unwrap_or_else(crate::serve_engine::noop_waker);
+    let mut cx = Context::from_waker(&w);
+    let ev = match body.as_mut().poll_frame(&mut cx) {
+        Poll::Pending => PollEv::Pending,
+        Poll::Ready(None) => PollEv::End,
+        Poll::Ready(Some(Err(_))) => PollEv::Err,
+        Poll::Ready(Some(Ok(f))) => PollEv::Data(f.into_data().map(|d| d.len()).unwrap_or(0)),
+    };
+    let eos = body.is_end_stream();
+    drop(g);
+    st.events.lock().unwrap().push((ev, eos, inline));
+}
+
+pub fn inline_wake_checks() -> Vec<String> {
+    let mut fails: Vec<String> = vec![];
+    for gzip in [false, true] {
+        for cap in [4usize, 4096] {
+            for scenario in 0..6 {
+                let mut rb = http::Request::builder().method("GET");
+                if gzip {
+                    rb = rb.header("accept-encoding", "gzip");
+                }
+                let req = rb.body(()).unwrap();
+                let (resp, writer) = http_serve::streaming_body(&req).with_chunk_size(cap).build::<Bytes, BoxError>();
+                let mut writer = writer;
+                let st = Arc::new(InlineState { body: Mutex::new(Some(Box::pin(resp.into_body()))), events: Mutex::new(vec![]) });
+                let arm = |st: &Arc<InlineState>| {
+                    // a poll that registers the inline waker (it parks when nothing is queued)
+                    let w = Waker::from(Arc::new(InlineWaker(st.clone())));
+                    poll_shared(st, Some(w), false);
+                };
+                let r = catch_unwind(AssertUnwindSafe(|| {
+                    arm(&st);
+                    let w = writer.as_mut().unwrap();
+                    match scenario {
+                        0 => {
+                            let _ = w.write(b"ab");
+                            w.abort(Box::new(AbortError));
+                        }
+                        1 => {
+                            let _ = w.write(b"ab");
+                            let _ = w.flush();
+                            arm(&st);
+                            let _ = w.write(b"cd");
+                            w.abort(Box::new(AbortError));
+                        }
+                        2 => w.abort(Box::new(AbortError)),
+                        3 => {
+                            let _ = w.write(b"ab");
+                        }
+                        4 => {
+                            let _ = w.write_all(&vec![7u8; 3 * cap + 1]);
+                            arm(&st);
+                            w.abort(Box::new(AbortError));
+                        }
+                        _ => {
+                            let _ = w.write(b"ab");
+                            let _ = w.flush();
+                            arm(&st);
+                            w.abort(Box::new(AbortError));
+                            w.abort(Box::new(AbortError));
+                        }
+                    }
+                    writer = None; // the drop (after an abort: of a dead writer)
+                    for _ in 0..6 {
+                        poll_shared(&st, None, false);
+                    }
+                }));
+                let tag = format!("gzip={} cap={} scenario={}", gzip, cap, scenario);
+                if r.is_err() {
+                    fails.push(format!("poll-from-wake-panicked({})", tag));
+                    continue;
+                }
+                let evs = st.events.lock().unwrap().clone();
+                let mut terminal = false;
+                let mut flagged = false;
+                for (ev, eos, _inline) in &evs {
+                    let loud = matches!(ev, PollEv::Data(_) | PollEv::Err);
+                    if terminal && loud {
+                        fails.push(format!("data-or-error-after-a-terminal-event-with-polls-from-wake({})", tag));
+                        break;
+                    }
+                    if flagged && loud {
+                        fails.push(format!("data-or-error-after-end-of-stream-flag-with-polls-from-wake({})", tag));
+                        break;
+                    }
+                    if matches!(ev, PollEv::Err | PollEv::End) {
+                        terminal = true;
+                    }
+                    flagged = flagged || *eos;
+                }
+                // an abort must reach the consumer as an error (scenarios with an abort), a drop as a clean end
+                let aborted = scenario != 3;
+                let saw_err = evs.iter().any(|e| e.0 == PollEv::Err);
+                if aborted && !saw_err {
+                    fails.push(format!("abort-not-seen-as-error-with-polls-from-wake({})", tag));
+                }
+                if !aborted && (saw_err || !evs.iter().any(|e| e.0 == PollEv::End)) {
+                    fails.push(format!("drop-not-seen-as-clean-end-with-polls-from-wake({})", tag));
+                }
+            }
+        }
+    }
+    fails
+}
